@@ -290,8 +290,16 @@ def lite_read(sx, lite_s, blocks, mode):
         elif mode == "payload":
             seen = sx.mkbytes(list(rsp[0:13]) +
                               list(sx.bytes("air", 16 * (n + 1))))
-        elif mode == "frame":
-            seen = sx.bytes("air", len(rsp), mutable=True)
+        elif mode == "header":
+            # one byte of length / response code / IDm / status flags /
+            # block count replaced; the first status flag from boundary
+            # values (it becomes an errno, i.e. a dictionary key)
+            pos = sx.pick("air.pos", list(range(13)))
+            v = sx.byte("air.hdr")
+            if pos == 10:
+                sx.assume(sx.any([v == 0, v == 1, v == 2, v == 0xFF]),
+                          "substituted status flag 1 from {00,01,02,FF}")
+            seen = sx.mkbytes(list(rsp[0:pos]) + [v] + list(rsp[pos + 1:]))
         elif mode == "short":
             seen = sx.mkbytes([len(rsp) - 1] + list(rsp[1:len(rsp) - 1]))
         elif mode == "long":
@@ -343,10 +351,14 @@ def lite_read(sx, lite_s, blocks, mode):
              pfx + ":modified-mac-accepted")
     hs, hr = halves_of(sent_data), halves_of(seen_data)
     for j in range(len(hs)):
-        # data modified in half j, later halves and the MAC untouched
+        # exactly one 8-byte half of the data modified (any of its bits),
+        # everything else and the MAC untouched.  (Substitutions of several
+        # halves that are computed from intermediate cipher values collide
+        # by construction of a CBC-MAC; they are covered by the two
+        # "verifies" obligations above, not by this one.)
         cond = sx.all([mac_same, sx.neg(sx.eq(sx.mkbytes(hr[j]), sx.mkbytes(hs[j])))] +
                       [sx.eq(sx.mkbytes(hr[k]), sx.mkbytes(hs[k]))
-                       for k in range(j + 1, len(hs))])
+                       for k in range(len(hs)) if k != j])
         sx.check(sx.implies(cond, got is None),
                  pfx + ":modified-data-with-original-mac-accepted")
     return [lite_s, mode, got is not None]
@@ -440,8 +452,8 @@ def partitions(tier):
         reads += [(0, [13]), (0, [14, 0]), (0, [2, 2]), (1, [0, 1]),
                   (1, [1, 2, 3]), (1, [0x82, 0x92])]
     for lite_s, blocks in reads:
-        for mode in ("none", "payload", "frame", "short", "long"):
-            if quick and lite_s and mode in ("frame", "short", "long"):
+        for mode in ("none", "payload", "header", "short", "long"):
+            if quick and lite_s and mode in ("header", "short", "long"):
                 continue
             parts.append(dict(
                 name="lite-read:%d:%s:%s" % (lite_s, "+".join("%02x" % b for b in blocks), mode),
